@@ -265,6 +265,8 @@ def check_url(ctx, x):
         kinds = tuple(step_kind(y, z) for y, z in list(zip(chain, chain[1:]))[:6])
         ps = ref.redirect_params(x)
         key = ps[0][0].lower() if ps else "-"
+        if ps and key not in ref.REDIRECT_KEYS:          # free-form keys of the random soups: keep the stem only
+            key = "*" + next(st for st in ref.REDIRECT_STEMS if st in key)
         res = "exc:" + r_rc[1] if r_rc[0] == "exc" else ("same" if r_rc[1] == x else "moved")
         col.nontriv((position_class(x), key, kinds, outcome, res))
 
